@@ -270,9 +270,9 @@ func (it *interp) evalFunc(fn *ssa.Function, args []iv) (iv, error) {
 					if !ok {
 						return iv{}, fmt.Errorf("load of %s is not evaluable", x.X.Name())
 					}
-					gv, ok := it.globals[g.Name()]
+					gv, ok := it.globals[GlobalName(g)]
 					if !ok {
-						return iv{}, fmt.Errorf("package variable %s has no statically known value", g.Name())
+						return iv{}, fmt.Errorf("package variable %s has no statically known value", GlobalName(g))
 					}
 					vals[x] = gv
 				case token.SUB:
@@ -551,7 +551,7 @@ func staticGlobals(c *Ctx, p *Prog, it *interp) {
 		EachInstr(fn, func(i ssa.Instruction) {
 			if st, ok := i.(*ssa.Store); ok {
 				if g, ok := st.Addr.(*ssa.Global); ok {
-					stores[g.Name()] = append(stores[g.Name()], st)
+					stores[GlobalName(g)] = append(stores[GlobalName(g)], st)
 				}
 			}
 		})
